@@ -43,12 +43,14 @@ Section AssocLemmas.
   Qed.
 End AssocLemmas.
 
-(* the backing storage an operation may modify *)
-Definition target (c : cfg) (o : op) : option (nat * bytes) :=
+(* the (backing storage, bucket) pairs an operation may modify; for a copy racing with a writer that
+   includes the source bucket, which the concurrent client modifies *)
+Definition targets (c : cfg) (o : op) : list (nat * bytes) :=
   match o with
-  | CreateBucket b _ | DeleteBucket b | Put b _ _ | Del b _ => Some (route c b, b)
-  | Copy _ _ db _ _ | PartCopy _ _ db _ _ => Some (route c db, db)
-  | Head _ _ _ | ListBuckets => None
+  | CreateBucket b _ | DeleteBucket b | Put b _ _ | Del b _ => [(route c b, b)]
+  | Copy _ _ db _ _ | PartCopy _ _ db _ _ => [(route c db, db)]
+  | CopyAt _ sb _ db _ _ _ _ => [(route c sb, sb); (route c db, db)]
+  | Head _ _ _ | ListBuckets => []
   end.
 
 Lemma get_store_upd_other f w i j : i <> j -> get_store (upd_nth i f w) j = get_store w j.
@@ -61,37 +63,53 @@ Proof.
   - apply Nat.ltb_ge in E. rewrite upd_out by exact E. reflexivity.
 Qed.
 
-Lemma step_other_storage c now w o j :
-  (forall i b, target c o = Some (i, b) -> j <> i) -> get_store (fst (step c now w o)) j = get_store w j.
+Lemma upd_nth_length {A} (f : A -> A) : forall l i, length (upd_nth i f l) = length l.
+Proof. induction l as [|x l IH]; intros [|i]; cbn; auto. Qed.
+
+(* a bucket that an update of backing i leaves alone is left alone in every backing *)
+Lemma aget_upd_fun f w i j b2 :
+  (forall s, aget b2 (f s) = aget b2 s) -> aget b2 (get_store (upd_nth i f w) j) = aget b2 (get_store w j).
 Proof.
-  intros H.
-  assert (U : forall b f, target c o = Some (route c b, b) -> get_store (upd_nth (route c b) f w) j = get_store w j).
-  { intros b f T. apply get_store_upd_other. intros E. exact (H _ _ T (eq_sym E)). }
-  destruct o as [b v|b|b k ob|b k|b k vid|sb sk db dk co|sb sk db dk co|]; cbn [step target] in *.
-  - destruct (aget b (get_store w (route c b))); cbn [fst]; [reflexivity | apply U; reflexivity].
-  - destruct (aget b (get_store w (route c b))) as [bk|]; cbn [fst]; [|reflexivity].
-    destruct (bucket_empty bk); cbn [fst]; [apply U; reflexivity | reflexivity].
-  - destruct (put_obj (get_store w (route c b)) b k ob); cbn [fst]; [apply U; reflexivity | reflexivity].
-  - destruct (aget b (get_store w (route c b))); cbn [fst]; [apply U; reflexivity | reflexivity].
-  - destruct (find_version (get_store w (route c b)) b k vid) as [r|[ob v]]; reflexivity.
-  - destruct ((if same_instance c sb db then inner_copy else cross_copy) _ _ sb sk db dk co false now) as [[s'|] r]; cbn [fst];
-      [apply U; reflexivity | reflexivity].
-  - destruct (aget db (get_store w (route c db))); cbn [fst]; [|reflexivity].
-    destruct ((if same_instance c sb db then inner_copy else cross_copy) _ _ sb sk db dk co true now) as [[s'|] r]; cbn [fst];
-      [apply U; reflexivity | reflexivity].
-  - reflexivity.
+  intros H. destruct (Nat.eq_dec i j) as [->|N]; [|rewrite get_store_upd_other by exact N; reflexivity].
+  rewrite get_store_upd_same. match goal with |- context [if ?cnd then _ else _] => destruct cnd end; [apply H | reflexivity].
+Qed.
+Lemma aget_upd_const s' w i j b2 :
+  aget b2 s' = aget b2 (get_store w i) -> aget b2 (get_store (upd_nth i (fun _ => s') w) j) = aget b2 (get_store w j).
+Proof.
+  intros H. destruct (Nat.eq_dec i j) as [->|N]; [|rewrite get_store_upd_other by exact N; reflexivity].
+  rewrite get_store_upd_same. match goal with |- context [if ?cnd then _ else _] => destruct cnd end; [exact H | reflexivity].
 Qed.
 
 Lemma put_obj_other s b k ob s' b2 : put_obj s b k ob = Some s' -> b2 <> b -> aget b2 s' = aget b2 s.
 Proof.
   unfold put_obj. destruct (aget b s); [|discriminate]. intros E N. inversion E; subst. apply aget_aset_other. exact N.
 Qed.
+Lemma del_obj_other s b k s' b2 : del_obj s b k = Some s' -> b2 <> b -> aget b2 s' = aget b2 s.
+Proof.
+  unfold del_obj. destruct (aget b s); [|discriminate]. intros E N. inversion E; subst. apply aget_aset_other. exact N.
+Qed.
+Lemma apply_writer_other wr s b k b2 : b2 <> b -> aget b2 (apply_writer wr s b k) = aget b2 s.
+Proof.
+  intros N. unfold apply_writer. destruct wr as [o|].
+  - destruct (put_obj s b k o) eqn:E; [eapply put_obj_other; eassumption | reflexivity].
+  - destruct (del_obj s b k) eqn:E; [eapply del_obj_other; eassumption | reflexivity].
+Qed.
 
+Lemma cross_copy_gen_other sh sg ds sb sk db dk co mp now s' r b2 :
+  cross_copy_gen sh sg ds sb sk db dk co mp now = (Some s', r) -> b2 <> db -> aget b2 s' = aget b2 ds.
+Proof.
+  unfold cross_copy_gen. destruct (find_version sh sb sk (co_vid co)) as [x|[src v]]; [discriminate|].
+  destruct (negb (cross_conditions (co_conds co) src)); [discriminate|].
+  destruct (find_version sg sb sk (co_vid co)) as [x|[got v']]; [discriminate|].
+  destruct (negb (etag_eqb src got)); [discriminate|].
+  destruct (read_window _ _); [|discriminate]. destruct (put_obj ds db dk _) eqn:E; [|discriminate].
+  intros H N. inversion H; subst. eapply put_obj_other; eassumption.
+Qed.
 Lemma cross_copy_other ss ds sb sk db dk co mp now s' r b2 :
   cross_copy ss ds sb sk db dk co mp now = (Some s', r) -> b2 <> db -> aget b2 s' = aget b2 ds.
 Proof.
   unfold cross_copy. destruct (find_version ss sb sk (co_vid co)) as [x|[src v]]; [discriminate|].
-  destruct (negb (cross_conditions (co_conds co) (o_lm src))); [discriminate|].
+  destruct (negb (cross_conditions (co_conds co) src)); [discriminate|].
   destruct (read_window _ _); [|discriminate]. destruct (put_obj ds db dk _) eqn:E; [|discriminate].
   intros H N. inversion H; subst. eapply put_obj_other; eassumption.
 Qed.
@@ -99,39 +117,108 @@ Lemma inner_copy_other ss ds sb sk db dk co mp now s' r b2 :
   inner_copy ss ds sb sk db dk co mp now = (Some s', r) -> b2 <> db -> aget b2 s' = aget b2 ds.
 Proof.
   unfold inner_copy. destruct (find_version ss sb sk (co_vid co)) as [x|[src v]]; [discriminate|].
-  destruct (inner_conditions (co_conds co) (o_lm src)); [|discriminate].
+  destruct (inner_conditions (co_conds co) src); [|discriminate].
   destruct ((if mp then part_window else read_window) _ _); [|discriminate]. destruct (put_obj ds db dk _) eqn:E; [|discriminate].
   intros H N. inversion H; subst. eapply put_obj_other; eassumption.
 Qed.
+Lemma cross_copy_at_other k wr ss ds sb sk db dk co mp now s' r b2 :
+  cross_copy_at k wr ss ds sb sk db dk co mp now = (Some s', r) -> b2 <> db -> aget b2 s' = aget b2 ds.
+Proof. unfold cross_copy_at. destruct k as [|[|[|k]]]; apply cross_copy_gen_other. Qed.
 
-(* within the target storage only the named bucket changes *)
-Lemma step_other_bucket c now w o i b b2 :
-  target c o = Some (i, b) -> b2 <> b -> i < length w ->
-  aget b2 (get_store (fst (step c now w o)) i) = aget b2 (get_store w i).
+(* isolation: a bucket that is not among the operation's targets is unchanged in EVERY backing storage *)
+Lemma step_other_bucket c now w o j b2 :
+  (forall i b, In (i, b) (targets c o) -> b2 <> b) ->
+  aget b2 (get_store (fst (step c now w o)) j) = aget b2 (get_store w j).
 Proof.
-  intros T N L. apply Nat.ltb_lt in L.
-  destruct o as [b0 v|b0|b0 k ob|b0 k|b0 k vid|sb sk db dk co|sb sk db dk co|]; cbn [step target] in *; inversion T as [[Hi Hb]]; clear T;
-    rewrite Hb in *; clear Hb.
-  - destruct (aget b (get_store w (route c b))); cbn [fst]; [rewrite Hi; reflexivity|].
-    rewrite Hi, get_store_upd_same, L. apply aget_aset_other. exact N.
-  - destruct (aget b (get_store w (route c b))) as [bk|]; cbn [fst]; [|rewrite Hi; reflexivity].
-    destruct (bucket_empty bk); cbn [fst]; [|rewrite Hi; reflexivity].
-    rewrite Hi, get_store_upd_same, L. apply aget_adel_other. exact N.
-  - destruct (put_obj (get_store w (route c b)) b k ob) eqn:E; cbn [fst]; [|rewrite Hi; reflexivity].
-    rewrite Hi in *. rewrite get_store_upd_same, L. eapply put_obj_other; eassumption.
-  - destruct (aget b (get_store w (route c b))); cbn [fst]; [|rewrite Hi; reflexivity].
-    rewrite Hi, get_store_upd_same, L. apply aget_aset_other. exact N.
-  - destruct (same_instance c sb b).
-    + destruct (inner_copy _ _ sb sk b dk co false now) as [[s'|] r] eqn:E; cbn [fst]; [|rewrite Hi; reflexivity].
-      rewrite Hi in *. rewrite get_store_upd_same, L. eapply inner_copy_other; eassumption.
-    + destruct (cross_copy _ _ sb sk b dk co false now) as [[s'|] r] eqn:E; cbn [fst]; [|rewrite Hi; reflexivity].
-      rewrite Hi in *. rewrite get_store_upd_same, L. eapply cross_copy_other; eassumption.
-  - destruct (aget b (get_store w (route c b))); cbn [fst]; [|rewrite Hi; reflexivity].
-    destruct (same_instance c sb b).
-    + destruct (inner_copy _ _ sb sk b dk co true now) as [[s'|] r] eqn:E; cbn [fst]; [|rewrite Hi; reflexivity].
-      rewrite Hi in *. rewrite get_store_upd_same, L. eapply inner_copy_other; eassumption.
-    + destruct (cross_copy _ _ sb sk b dk co true now) as [[s'|] r] eqn:E; cbn [fst]; [|rewrite Hi; reflexivity].
-      rewrite Hi in *. rewrite get_store_upd_same, L. eapply cross_copy_other; eassumption.
+  intros H.
+  destruct o as [b v|b|b k ob|b k|b k vid|sb sk db dk co|sb sk db dk co| |part sb sk db dk co kk wr]; cbn [step targets] in *.
+  - assert (N : b2 <> b) by (eapply H; left; reflexivity).
+    destruct (aget b (get_store w (route c b))); cbn [fst]; [reflexivity|]. apply aget_upd_fun. intros s. apply aget_aset_other. exact N.
+  - assert (N : b2 <> b) by (eapply H; left; reflexivity).
+    destruct (aget b (get_store w (route c b))) as [bk|]; cbn [fst]; [|reflexivity].
+    destruct (bucket_empty bk); cbn [fst]; [|reflexivity]. apply aget_upd_fun. intros s. apply aget_adel_other. exact N.
+  - assert (N : b2 <> b) by (eapply H; left; reflexivity).
+    destruct (put_obj (get_store w (route c b)) b k ob) eqn:E; cbn [fst]; [|reflexivity].
+    apply aget_upd_const. eapply put_obj_other; eassumption.
+  - assert (N : b2 <> b) by (eapply H; left; reflexivity).
+    destruct (del_obj (get_store w (route c b)) b k) eqn:E; cbn [fst]; [|reflexivity].
+    apply aget_upd_const. eapply del_obj_other; eassumption.
+  - destruct (find_version (get_store w (route c b)) b k vid) as [r|[ob v]]; reflexivity.
+  - assert (N : b2 <> db) by (eapply H; left; reflexivity).
+    destruct (same_instance c sb db).
+    + destruct (inner_copy _ _ sb sk db dk co false now) as [[s'|] r] eqn:E; cbn [fst]; [|reflexivity].
+      apply aget_upd_const. eapply inner_copy_other; eassumption.
+    + destruct (cross_copy _ _ sb sk db dk co false now) as [[s'|] r] eqn:E; cbn [fst]; [|reflexivity].
+      apply aget_upd_const. eapply cross_copy_other; eassumption.
+  - assert (N : b2 <> db) by (eapply H; left; reflexivity).
+    destruct (aget db (get_store w (route c db))); cbn [fst]; [|reflexivity].
+    destruct (same_instance c sb db).
+    + destruct (inner_copy _ _ sb sk db dk co true now) as [[s'|] r] eqn:E; cbn [fst]; [|reflexivity].
+      apply aget_upd_const. eapply inner_copy_other; eassumption.
+    + destruct (cross_copy _ _ sb sk db dk co true now) as [[s'|] r] eqn:E; cbn [fst]; [|reflexivity].
+      apply aget_upd_const. eapply cross_copy_other; eassumption.
+  - reflexivity.
+  - assert (N1 : b2 <> sb) by (eapply H; left; reflexivity).
+    assert (N2 : b2 <> db) by (eapply H; right; left; reflexivity).
+    set (wr_w := fun w0 : world => upd_nth (route c sb) (fun s => apply_writer wr s sb sk) w0).
+    assert (HW : forall w0 j0, aget b2 (get_store (wr_w w0) j0) = aget b2 (get_store w0 j0)).
+    { intros w0 j0. apply aget_upd_fun. intros s. apply apply_writer_other. exact N1. }
+    destruct (part && _); cbn [fst]; [apply HW|].
+    destruct (same_instance c sb db).
+    + destruct (kk <=? 1).
+      * destruct (inner_copy _ _ sb sk db dk co part now) as [[s'|] r] eqn:E; cbn [fst]; [|apply HW].
+        rewrite aget_upd_const; [apply HW|]. eapply inner_copy_other; eassumption.
+      * destruct (inner_copy _ _ sb sk db dk co part now) as [[s'|] r] eqn:E; cbn [fst]; rewrite HW; [|reflexivity].
+        apply aget_upd_const. eapply inner_copy_other; eassumption.
+    + destruct (cross_copy_at kk wr _ _ sb sk db dk co part now) as [[s'|] r] eqn:E; cbn [fst]; [|apply HW].
+      rewrite aget_upd_const; [apply HW|]. eapply cross_copy_at_other; eassumption.
+Qed.
+
+(* ... and a backing storage that is not among the targets is unchanged as a whole *)
+Lemma step_other_storage c now w o j :
+  (forall i b, In (i, b) (targets c o) -> j <> i) -> get_store (fst (step c now w o)) j = get_store w j.
+Proof.
+  intros H.
+  assert (U : forall b f w0, In (route c b, b) (targets c o) -> get_store (upd_nth (route c b) f w0) j = get_store w0 j).
+  { intros b f w0 T. apply get_store_upd_other. intros E. exact (H _ _ T (eq_sym E)). }
+  destruct o as [b v|b|b k ob|b k|b k vid|sb sk db dk co|sb sk db dk co| |part sb sk db dk co kk wr]; cbn [step targets] in *.
+  - destruct (aget b (get_store w (route c b))); cbn [fst]; [reflexivity | apply U; left; reflexivity].
+  - destruct (aget b (get_store w (route c b))) as [bk|]; cbn [fst]; [|reflexivity].
+    destruct (bucket_empty bk); cbn [fst]; [apply U; left; reflexivity | reflexivity].
+  - destruct (put_obj (get_store w (route c b)) b k ob); cbn [fst]; [apply U; left; reflexivity | reflexivity].
+  - destruct (del_obj (get_store w (route c b)) b k); cbn [fst]; [apply U; left; reflexivity | reflexivity].
+  - destruct (find_version (get_store w (route c b)) b k vid) as [r|[ob v]]; reflexivity.
+  - destruct ((if same_instance c sb db then inner_copy else cross_copy) _ _ sb sk db dk co false now) as [[s'|] r]; cbn [fst];
+      [apply U; left; reflexivity | reflexivity].
+  - destruct (aget db (get_store w (route c db))); cbn [fst]; [|reflexivity].
+    destruct ((if same_instance c sb db then inner_copy else cross_copy) _ _ sb sk db dk co true now) as [[s'|] r]; cbn [fst];
+      [apply U; left; reflexivity | reflexivity].
+  - reflexivity.
+  - assert (US : forall f w0, get_store (upd_nth (route c sb) f w0) j = get_store w0 j) by (intros; apply U; left; reflexivity).
+    assert (UD : forall f w0, get_store (upd_nth (route c db) f w0) j = get_store w0 j) by (intros; apply U; right; left; reflexivity).
+    destruct (part && _); cbn [fst]; [apply US|].
+    destruct (same_instance c sb db).
+    + destruct (kk <=? 1);
+      destruct (inner_copy _ _ sb sk db dk co part now) as [[s'|] r]; cbn [fst]; rewrite ?US, ?UD, ?US; reflexivity.
+    + destruct (cross_copy_at kk wr _ _ sb sk db dk co part now) as [[s'|] r]; cbn [fst]; rewrite ?UD, ?US; reflexivity.
+Qed.
+
+Lemma step_length c now w o : length (fst (step c now w o)) = length w.
+Proof.
+  destruct o as [b v|b|b k ob|b k|b k vid|sb sk db dk co|sb sk db dk co| |part sb sk db dk co kk wr]; cbn [step].
+  - destruct (aget b _); cbn [fst]; rewrite ?upd_nth_length; reflexivity.
+  - destruct (aget b _) as [bk|]; cbn [fst]; [|reflexivity]. destruct (bucket_empty bk); cbn [fst]; rewrite ?upd_nth_length; reflexivity.
+  - destruct (put_obj _ b k ob); cbn [fst]; rewrite ?upd_nth_length; reflexivity.
+  - destruct (del_obj _ b k); cbn [fst]; rewrite ?upd_nth_length; reflexivity.
+  - destruct (find_version _ b k vid) as [r|[ob v]]; reflexivity.
+  - destruct ((if same_instance c sb db then inner_copy else cross_copy) _ _ sb sk db dk co false now) as [[s'|] r]; cbn [fst]; rewrite ?upd_nth_length; reflexivity.
+  - destruct (aget db _); cbn [fst]; [|reflexivity].
+    destruct ((if same_instance c sb db then inner_copy else cross_copy) _ _ sb sk db dk co true now) as [[s'|] r]; cbn [fst]; rewrite ?upd_nth_length; reflexivity.
+  - reflexivity.
+  - destruct (part && _); cbn [fst]; [rewrite upd_nth_length; reflexivity|].
+    destruct (same_instance c sb db).
+    + destruct (kk <=? 1); destruct (inner_copy _ _ sb sk db dk co part now) as [[s'|] r]; cbn [fst]; rewrite ?upd_nth_length; reflexivity.
+    + destruct (cross_copy_at kk wr _ _ sb sk db dk co part now) as [[s'|] r]; cbn [fst]; rewrite ?upd_nth_length; reflexivity.
 Qed.
 
 (* sorting neither loses nor invents names *)
@@ -143,15 +230,21 @@ Lemma In_isort x l : In x (isort l) <-> In x l.
 Proof. induction l as [|y l IH]; cbn; [tauto|]. rewrite In_ins, IH. intuition. Qed.
 
 (* ---------- copy options: the middleware's re-implementation vs the storage's own ---------- *)
-Lemma conditions_agree c lm : cross_conditions c lm = inner_conditions c lm.
+Lemma conditions_agree c o : cross_conditions c o = inner_conditions c o.
 Proof.
   unfold cross_conditions, inner_conditions.
-  destruct (c_im c) as [[]|], (c_inm c) as [[]|], (c_ius c) as [t|], (c_ims c) as [t'|]; cbn;
+  destruct (c_im c) as [e1|], (c_inm c) as [e2|], (c_ius c) as [t|], (c_ims c) as [t'|]; cbn;
+    repeat (match goal with |- context [ec_matches ?e o] => destruct (ec_matches e o) end; cbn);
     try reflexivity; repeat (match goal with |- context [(?a <? ?b)%Z] => destruct (a <? b)%Z end; cbn); reflexivity.
 Qed.
 
-Lemma conditions_second_granularity c lm lm' : trunc_s lm = trunc_s lm' -> cross_conditions c lm = cross_conditions c lm'.
-Proof. intros H. unfold cross_conditions. rewrite H. reflexivity. Qed.
+Lemma conditions_second_granularity c o o' :
+  o_data o = o_data o' -> o_m o = o_m o' -> trunc_s (o_lm o) = trunc_s (o_lm o') -> cross_conditions c o = cross_conditions c o'.
+Proof.
+  intros D M H. unfold cross_conditions. rewrite H.
+  assert (E : forall e, ec_matches e o = ec_matches e o') by (intros [d m| |]; cbn; rewrite ?D, ?M; reflexivity).
+  destruct (c_im c), (c_inm c); rewrite ?E; reflexivity.
+Qed.
 
 Lemma sizeZ_nonneg d : (0 <= sizeZ d)%Z.
 Proof. unfold sizeZ. lia. Qed.
@@ -175,7 +268,7 @@ Lemma copy_kinds_agree ss ds sb sk db dk co mp now :
 Proof.
   intros Hx. unfold cross_copy, inner_copy.
   destruct (find_version ss sb sk (co_vid co)) as [r|[src v]] eqn:F; [reflexivity|].
-  rewrite conditions_agree. destruct (inner_conditions (co_conds co) (o_lm src)); cbn [negb]; [|reflexivity].
+  rewrite conditions_agree. destruct (inner_conditions (co_conds co) src); cbn [negb]; [|reflexivity].
   assert (W : (if mp then part_window else read_window) (co_range co) (sizeZ (o_data src)) = read_window (co_range co) (sizeZ (o_data src))).
   { destruct mp; [|reflexivity]. apply window_agree; [apply sizeZ_nonneg|]. intros Z0. apply (Hx src v eq_refl eq_refl).
     unfold sizeZ in Z0. destruct (o_data src); [reflexivity | cbn in Z0; lia]. }
@@ -192,7 +285,7 @@ Proof.
   intros Hx. unfold cross_copy, inner_copy.
   destruct (find_version ss sb sk (co_vid co)) as [r|[src v]] eqn:F; [reflexivity|].
   destruct (Hx src v eq_refl) as [H1 H2].
-  rewrite conditions_agree. destruct (inner_conditions (co_conds co) (o_lm src)); cbn [negb]; [|reflexivity].
+  rewrite conditions_agree. destruct (inner_conditions (co_conds co) src); cbn [negb]; [|reflexivity].
   assert (W : (if mp then part_window else read_window) (co_range co) (sizeZ (o_data src)) = read_window (co_range co) (sizeZ (o_data src))).
   { destruct mp; [|reflexivity]. apply window_agree; [apply sizeZ_nonneg|]. intros Z0. apply (H1 eq_refl).
     unfold sizeZ in Z0. destruct (o_data src); [reflexivity | cbn in Z0; lia]. }
@@ -208,3 +301,88 @@ Lemma copied_obj_content src win rg mp now :
   o_data (copied_obj src win rg true mp now) = o_data (copied_obj src win rg false mp now) /\
   o_c (copied_obj src win rg true mp now) = o_c (copied_obj src win rg false mp now).
 Proof. split; reflexivity. Qed.
+
+(* ---------- a copy racing with a writer ---------- *)
+Lemma etag_eqb_refl o : etag_eqb o o = true.
+Proof. unfold etag_eqb. rewrite bytes_eqb_refl, Bool.eqb_reflx. reflexivity. Qed.
+Lemma etag_eqb_data a b : etag_eqb a b = true -> o_data a = o_data b.
+Proof. unfold etag_eqb. intros H. apply andb_true_iff in H. destruct H as [H _]. apply bytes_eqb_eq. exact H. Qed.
+
+(* when nothing happens between the source calls the call sequence is the copy *)
+Lemma cross_copy_gen_same s ds sb sk db dk co mp now :
+  cross_copy_gen s s ds sb sk db dk co mp now = cross_copy s ds sb sk db dk co mp now.
+Proof.
+  unfold cross_copy_gen, cross_copy.
+  destruct (find_version s sb sk (co_vid co)) as [r|[src v]]; [reflexivity|].
+  destruct (negb (cross_conditions (co_conds co) src)); [reflexivity|].
+  rewrite etag_eqb_refl. cbn [negb]. destruct (read_window _ _) as [win|]; reflexivity.
+Qed.
+
+(* the writer between HeadObject and GetObject: the copy-first outcome, the writer-first outcome, or
+   a failed precondition that leaves the destination untouched *)
+Lemma cross_copy_gen_race s sw ds sb sk db dk co mp now :
+  cross_copy_gen s sw ds sb sk db dk co mp now = cross_copy s ds sb sk db dk co mp now \/
+  cross_copy_gen s sw ds sb sk db dk co mp now = cross_copy sw ds sb sk db dk co mp now \/
+  cross_copy_gen s sw ds sb sk db dk co mp now = (None, RPrecondition).
+Proof.
+  unfold cross_copy_gen, cross_copy.
+  destruct (find_version s sb sk (co_vid co)) as [r|[src v]]; [left; reflexivity|].
+  destruct (negb (cross_conditions (co_conds co) src)); [left; reflexivity|].
+  destruct (find_version sw sb sk (co_vid co)) as [r|[got v']]; [right; left; reflexivity|].
+  destruct (etag_eqb src got) eqn:E; cbn [negb]; [|right; right; reflexivity].
+  left. rewrite <- (etag_eqb_data _ _ E). destruct (read_window _ _) as [win|]; reflexivity.
+Qed.
+
+Lemma cross_copy_at_atomic k wr ss ds sb sk db dk co mp now :
+  let ssw := apply_writer wr ss sb sk in
+  cross_copy_at k wr ss ds sb sk db dk co mp now = cross_copy ss ds sb sk db dk co mp now \/
+  cross_copy_at k wr ss ds sb sk db dk co mp now = cross_copy ssw ds sb sk db dk co mp now \/
+  cross_copy_at k wr ss ds sb sk db dk co mp now = (None, RPrecondition).
+Proof.
+  cbv zeta. unfold cross_copy_at. destruct k as [|[|[|k]]].
+  - right; left. apply cross_copy_gen_same.
+  - right; left. apply cross_copy_gen_same.
+  - apply cross_copy_gen_race.
+  - left. apply cross_copy_gen_same.
+Qed.
+
+(* ---------- the ambient transaction ---------- *)
+Lemma get_set0 w p : w <> [] -> get_store (set0 w p) 0 = p.
+Proof. destruct w; [congruence|]. reflexivity. Qed.
+Lemma get_set0_other w p j : j <> 0 -> get_store (set0 w p) j = get_store w j.
+Proof. intros H. unfold set0. apply get_store_upd_other. auto. Qed.
+Lemma set0_set0 w p q : set0 (set0 w p) q = set0 w q.
+Proof. destruct w; reflexivity. Qed.
+Lemma set0_get w : set0 w (get_store w 0) = w.
+Proof. destruct w; reflexivity. Qed.
+Lemma set0_nonempty w p : w <> [] -> set0 w p <> [].
+Proof. destruct w; [congruence | discriminate]. Qed.
+Lemma step_nonempty c now w o : w <> [] -> fst (step c now w o) <> [].
+Proof. intros H E. pose proof (step_length c now w o) as L. rewrite E in L. destruct w; [congruence | discriminate]. Qed.
+
+(* the same operations without any transaction, on the same clock *)
+Fixpoint plain_run (c : cfg) (n : Z) (w : world) (ops : list pop) : world * list res :=
+  match ops with
+  | [] => (w, [])
+  | p :: r => let now := (n * 1000 + 537)%Z in
+              let '(w1, x) := step c now w (resolve c w p now) in
+              let '(w2, xs) := plain_run c (n + 1)%Z w1 r in (w2, x :: xs)
+  end.
+
+Lemma tx_run_plain c : forall ops n w pend, w <> [] ->
+  tx_run c n w pend ops =
+  (set0 (fst (plain_run c n (set0 w pend) ops)) (get_store w 0),
+   get_store (fst (plain_run c n (set0 w pend) ops)) 0,
+   snd (plain_run c n (set0 w pend) ops)).
+Proof.
+  induction ops as [|p ops IH]; intros n w pend Hw; cbn [tx_run plain_run].
+  - cbn [fst snd]. rewrite set0_set0, set0_get, get_set0 by exact Hw. reflexivity.
+  - set (view := set0 w pend).
+    destruct (step c (n * 1000 + 537)%Z view (resolve c view p (n * 1000 + 537)%Z)) as [v1 x] eqn:E.
+    assert (Hv1 : v1 <> []).
+    { replace v1 with (fst (step c (n * 1000 + 537)%Z view (resolve c view p (n * 1000 + 537)%Z))) by (rewrite E; reflexivity).
+      apply step_nonempty. apply set0_nonempty. exact Hw. }
+    rewrite (IH (n + 1)%Z (set0 v1 (get_store w 0)) (get_store v1 0) (set0_nonempty _ _ Hv1)).
+    rewrite set0_set0, set0_get, get_set0 by exact Hv1.
+    destruct (plain_run c (n + 1)%Z v1 ops) as [w2 xs]. reflexivity.
+Qed.
